@@ -295,6 +295,7 @@ MUTANTS = [
          old="                                or self.input_buffer[d].end < this_chunk_end\n", new="                                or self.input_buffer[d].end < this_chunk_end - 1\n"),
     dict(name="leftover rows at the end not reported", file="strax/plugins/plugin.py",
          old="                    if buffer is not None and len(buffer):", new="                    if False:"),
-    dict(name="inconsistent input ranges accepted", file="strax/plugins/plugin.py",
-         old="            elif len(set(tranges.values())) != 1:", new="            elif False:"),
+    dict(name="other inputs split strictly at the pacemaker's end", file="strax/plugins/plugin.py",
+         old="                        inputs[d], self.input_buffer[d] = self.input_buffer[d].split(\n                            t=this_chunk_end, allow_early_split=True\n                        )",
+         new="                        inputs[d], self.input_buffer[d] = self.input_buffer[d].split(\n                            t=this_chunk_end, allow_early_split=False\n                        )"),
 ]
